@@ -422,6 +422,8 @@ def run_case(ctx, case):
         return run_cycles(ctx, case)
     if case.get("kind") == "reuse":
         return run_reuse(ctx, case)
+    if case.get("kind") == "nested-inputs":
+        return run_nested_inputs(ctx, case)
     obs = run_scenario(case)
     judge(ctx, case, obs)
 
@@ -631,6 +633,59 @@ def run_reuse(ctx, case):
     ctx.count("reuse_histories")
 
 
+def run_nested_inputs(ctx, case):
+    """an inner Input entered and left inside an outer one: leaving the inner context must
+    give the outer one back what it had installed (its signal wake-up descriptor, its SIGINT
+    handler), so that the outer request is still interrupted promptly by a SIGINT"""
+    from curtsies import Input, events
+    R = rig()
+    fd = R.pty.slave
+    set_tty_mode(fd, R.cooked, case.get("tty", "cooked"))
+    R.pty.drain_slave()
+    late = []
+    signal.signal(signal.SIGINT, lambda s_, f_: late.append(1))
+    signal.set_wakeup_fd(-1)
+    base = snap(fd)
+    outer = Input(R.pty.stream, sigint_event=True)
+    inner = Input(R.pty.stream, sigint_event=case["inner_sigint_event"])
+    problems = []
+    waited = None
+    th = threading.Thread(target=lambda: (time.sleep(0.03), os.kill(os.getpid(), signal.SIGINT)))
+    try:
+        with outer:
+            mid = snap(fd)
+            with inner:
+                inner.send(0)
+            after_inner = snap(fd)
+            for k in ("attrs", "flags", "sigint", "wakeup"):
+                if after_inner[k] != mid[k]:
+                    problems.append("%s of the outer context not restored when the inner one was left" % k)
+            th.start()
+            t0 = time.monotonic()
+            e = outer.send(2.0)
+            waited = time.monotonic() - t0
+            if not isinstance(e, events.SigIntEvent):
+                problems.append("outer request returned %r instead of the SIGINT event" % (e,))
+            elif waited > 1.0:
+                problems.append("outer request was not woken by the signal (returned after %.2fs)" % waited)
+    except KeyboardInterrupt:
+        problems.append("KeyboardInterrupt escaped although the outer Input has sigint_event=True")
+    try:
+        th.join()
+    except KeyboardInterrupt:
+        pass
+    after = snap(fd)
+    for k in base:
+        if base[k] != after[k]:
+            problems.append("%s not restored after both contexts were left" % k)
+    signal.signal(signal.SIGINT, R.default_sigint)
+    termios.tcsetattr(fd, termios.TCSANOW, R.cooked)
+    mech = "C12:wakeup-fd-not-restored" if any("wakeup" in p or "not woken" in p for p in problems) else "C12:nested-inputs"
+    ctx.judge(not problems, case, ("C12", "nested", repr(case)), mech, "outer context intact", problems,
+              {"waited": waited}, nontrivial=True)
+    ctx.count("nested_input_histories")
+
+
 def run_sigint(ctx, case):
     """real SIGINT from a timer thread into a blocked request"""
     from curtsies import Input, events
@@ -710,6 +765,9 @@ def run(ctx):
         ctx.notes["line_level_events_in_bodies"] = total_lines
     ctx.exhaustive = True
     if ctx.shard[0] == 0:
+        for ise in (False, True):
+            for mode in ("cooked", "raw"):
+                run_nested_inputs(ctx, {"kind": "nested-inputs", "inner_sigint_event": ise, "tty": mode})
         run_cycles(ctx, {"kind": "cycles", "n": 100 if ctx.quick else 1000})
         import itertools as _it
         for n_uses in (2, 3):
